@@ -281,6 +281,8 @@ class Context:
                 "skipped": sum(1 for f in self.fuse if "skip" in f), "n0": self.n0,
                 "protected_copy_sources": sorted({int(f["result"].split(">")[0]) for f in recs
                                                   if f["result"] != "-" and f["memcpy"] and f["wp"]}),
+                "copy_shares": sorted({(int(f["result"].split(">")[0]), int(f["ofm"].split(">")[0])) for f in recs
+                                       if f["result"] != "-" and f["ofm"] != "-" and f["memcpy"]}),
                 "variables": list(self.pers), "names": list(self.names)}
 
 
@@ -769,7 +771,17 @@ def _victims(sm):
 
 def _key_for(rules, r, victims):
     """the known finding a Spec rejection belongs to: only by what was destroyed and how it was shared"""
-    if rules[0] == "0" and victims and victims <= set(r["protected_copy_sources"]):
+    # values that sit in one buffer with a write protected Memcpy source through copies only (the source, its copy, a
+    # copy of the copy): whichever of them an in-place operator destroys, it is the Memcpy branch ignoring the protection
+    tainted = set(r["protected_copy_sources"])
+    grew = True
+    while grew:
+        grew = False
+        for a, b in r.get("copy_shares", []):
+            if (a in tainted) != (b in tainted):
+                tainted |= {a, b}
+                grew = True
+    if rules[0] == "0" and victims and victims <= tainted:
         return KEY_MEMCPY
     if victims and victims <= set(r["variables"]) and (rules[1] == "0" or rules[2] == "0"):
         return KEY_VARIABLE
@@ -861,6 +873,8 @@ def stage(ck, outs, prefix="inplace_", stub=True, compiled=True):
             bad = _compare(r, m)
             stats["wf"] += m["wf"] == "1"
             stats["multiple"] += m["multiple"] == "1"
+            if not stub and r["post"]["shared"]:
+                ck.count(prefix + "compiled_with_object_in_two_subgraphs")
             if not stub and (m["wf"] != "1" or m["multiple"] == "1"):
                 # the theorems of Props/C12InPlace do not speak about this compiled graph (the Spec still judges it)
                 ck.count(prefix + "compiled_outside_theorem_hypotheses")
@@ -881,9 +895,15 @@ def stage(ck, outs, prefix="inplace_", stub=True, compiled=True):
         if not sm:
             raise common.InfraError("unexpected inplacespec answer: " + sa[:200])
         nu, nc = int(sm.group(1)), int(sm.group(3))
-        if (nu or nc) and not (stub and (m is None or m["wf"] != "1")):
-            # a generated graph that is no execution order (a reader in front of a producer) or breaks an invariant of
-            # pack_into_passes (Lean: Graph.wf) is only compared, not judged; compiled networks are always judged
+        out_of_scope = stub and (m is None or m["wf"] != "1" or m["multiple"] == "1" or r["post"]["shared"])
+        if (nu or nc) and out_of_scope:
+            ck.count(prefix + "stub_rejections_outside_scope")
+        if (nu or nc) and not out_of_scope:
+            # a generated graph that is no execution order (a reader in front of a producer), breaks an invariant of
+            # pack_into_passes (Lean: Graph.wf), or has a tensor written by passes of two NPU subgraphs (one object held by two
+            # subgraphs: the later update_consumers resets lists of the earlier subgraph; the graph optimiser puts an ADD
+            # behind every concatenation, so no such tensor is a subgraph output of a compiled graph) is only compared,
+            # not judged; compiled networks are always judged
             rejected[n_i] = (r, o, sa, sm)
         if bad:
             disagreements.append((n_i, r, o, bad, ans))
